@@ -127,7 +127,8 @@ def edgesMapR (f : TakeFacts) (vf : ValidateFacts) (allowMissing : Bool) (st : F
     match fieldMapR f allowMissing e.pt e.v (rp e) e.ms with
     | .error err => .error err
     | .ok l =>
-      if checkE vf e.pt st e.ms l then
+      if checkPanicE vf e.pt st e.ms l then .error .panic
+      else if checkE vf e.pt st e.ms l then
         match edgesMapR f vf allowMissing st rp rest with
         | .ok l' => .ok (l.map (fun (m, a) => (m.dst, a)) ++ l')
         | .error err => .error err
